@@ -244,9 +244,9 @@ fn release_action_mappings(state: &mut State) -> Vec<Event> {
   events
 }
 
-fn add_new_mapping(state: &mut State, new_key: &KeyCode, m: &Mapping) -> StepResult {
-  let mut events: Vec<Event> = Vec::new();
-  
+// Pass-through keys that the mapping uses: released if only in its trigger,
+// taken over as mapped output if in its output.
+fn consume_pass_through_keys(state: &mut State, m: &Mapping, events: &mut Vec<Event>) {
   let pass_through_keys = &mut state.pass_through_keys;
   let mapped_output_keys = &mut state.mapped_output_keys;
   
@@ -265,6 +265,12 @@ fn add_new_mapping(state: &mut State, new_key: &KeyCode, m: &Mapping) -> StepRes
       true
     }
   });
+}
+
+fn add_new_mapping(state: &mut State, new_key: &KeyCode, m: &Mapping) -> StepResult {
+  let mut events: Vec<Event> = Vec::new();
+  
+  consume_pass_through_keys(state, m, &mut events);
   
   if is_action_mapping(m) {
     events.append(&mut release_action_mappings(state));
@@ -276,6 +282,9 @@ fn add_new_mapping(state: &mut State, new_key: &KeyCode, m: &Mapping) -> StepRes
     };
     if should_absorb {
       events.append(&mut release_absorbed_keys(state));
+      // Removing an older mapping can hand one of its output keys back to
+      // pass-through; if that key belongs to the new mapping, consume it too.
+      consume_pass_through_keys(state, m, &mut events);
     }
   }
   
